@@ -334,3 +334,30 @@ def refusal_inserts(body, head_bb):
         if e[2][0][0] == "local" and next_call_bb(e[2][1]) == head_bb and has_call(e[2][1], r"Clone>::clone$|Clone::clone$"):
             out.append(s)
     return out
+
+
+def guard(body, pred, start=0):
+    """edges on which pred's condition is known to hold, closed under bool hoisting (`let ok = a && b; if ok`):
+    pred(cond_expr, rendered, label) is also applied to the defining expression of a hoisted local"""
+    def p2(c, r, l):
+        # look through `!x`: a switch / hoisted definition of Not(x) with value v says x == !v
+        while c[0] == "un" and c[1] == "Not" and l in ("true", "false"):
+            c, l = c[2], ("false" if l == "true" else "true")
+            r = render(c)
+        return pred(c, r, l)
+    base = body.guard_edges(p2)
+    out = body.derive_edges(base, p2, start)
+    if start != 0:
+        # a hoisted local defined before `start` is not "guarded" just because `start` cannot reach its definition
+        live = body.reachable([start])
+        out = {(b, t) for (b, t) in out if (b, t) in base or b in live}
+        ok_defs = set()
+        for (b, t) in set(out) - set(base):
+            info = body.switch_info(b)
+            c = info[0]
+            while c[0] == "un" and c[1] == "Not":
+                c = c[2]
+            if c[0] == "local" and all(d[1] in live for d in body.defs.get(c[1], [])):
+                ok_defs.add((b, t))
+        out = set(base) | ok_defs
+    return out
